@@ -564,6 +564,28 @@ def gen_history(rng, schema, n):
 
 
 # ------------------------------------------------------------------------------------------------ model tie
+DECISIONS = {}      # (what, sorted args) -> Bool, filled from the driver at the start of a run
+
+def load_decisions(ctx):
+    DECISIONS.clear()
+    if not ctx.driver.ok: return
+    reqs = []
+    for what, names in (('prefetching', ('lazy', 'thresholdSet', 'counterReached')), ('batchSkips', ('same', 'createdOrDeleted', 'hasSd', 'full')),
+                        ('partialLoad', ('hasItems', 'lazy', 'sdNonEmpty'))):
+        for vals in itertools.product([False, True], repeat=len(names)):
+            reqs.append(dict(zip(names, vals), op='decide', what=what))
+    outs = ctx.driver('C23', reqs)
+    for r, o in zip(reqs, outs):
+        if 'r' in o: DECISIONS[(r['what'],) + tuple(sorted((k, v) for k, v in r.items() if k not in ('op', 'what')))] = o['r']
+
+def decision(what, **kw):
+    key = (what,) + tuple(sorted(kw.items()))
+    if key in DECISIONS: return DECISIONS[key]
+    # driver unavailable: the rule as read from Set.load (the tie is not evaluated in that case anyway)
+    if what == 'prefetching': return (not kw['lazy']) and kw['thresholdSet'] and kw['counterReached']
+    if what == 'batchSkips': return kw['same'] or kw['createdOrDeleted'] or (kw['hasSd'] and kw['full'])
+    return kw['hasItems'] and (kw['lazy'] or not kw['sdNonEmpty'])
+
 PENDING = []
 LOADERS = []        # (driver request, real vals after, real sets after, description)
 LAZYREF_KEY = 'lazy-reference:one-to-many-collection-loads-empty'
@@ -777,11 +799,12 @@ class Tie(object):
             counter = cache.collection_statistics.get(attr, 0)
             th = attr.nplus1_threshold
             owners = [oid]
-            if not attr.lazy and th is not None and counter >= th:      # Set.load: nplus1 batch over the identity map
+            # the two decisions are taken by the functions REGENERATED from Set.load (Gen.LoadDecisions, through the driver)
+            if decision('prefetching', lazy=bool(attr.lazy), thresholdSet=th is not None, counterReached=th is not None and counter >= th):
                 for obj2 in cache.indexes[cls._pk_attrs_].values():
-                    if obj2 is o or obj2._status_ in core.created_or_deleted_statuses: continue
                     sd2 = obj2._vals_.get(attr)
-                    if sd2 is not None and sd2.is_fully_loaded: continue
+                    if decision('batchSkips', same=obj2 is o, createdOrDeleted=obj2._status_ in core.created_or_deleted_statuses,
+                                hasSd=sd2 is not None, full=bool(sd2 is not None and sd2.is_fully_loaded)): continue
                     owners.append(self.oid(w.classes.index(type(obj2)), obj2.id))
             rev = attr.reverse
             if rev.is_collection: return {'t': 'collLinks', 'owners': owners, 'c': ai, 'rowAttrs': self.row_attrs(w)}
@@ -1036,11 +1059,13 @@ def run(ctx):
         except Exception as e:
             ctx.violation('a fixed minimal program of the check (%s) raised %s on this tree: %s' % (wfn.__name__, type(e).__name__, str(e)[:160]),
                           {'program': wfn.__name__}, observed=type(e).__name__, expected='completes', key='witness-raised:%s:%s' % (wfn.__name__, type(e).__name__))
+    load_decisions(ctx)
+    ctx.count('decisions-from-source', len(DECISIONS))
     work = ponyutil.workdir('c23')
     base = os.path.join(work, 'base.sqlite')
     try:
         corpus(ctx, base)
-        n = ctx.scale(180, 2000)
+        n = ctx.scale(180, 1500)
         found = 0
         base_keys = len(ctx.violations) + len(ctx.known_hits)
         for it in range(n):
